@@ -4,6 +4,7 @@ import (
 	"bytes"
 	"context"
 	"fmt"
+	"github.com/itchio/headway/state"
 	"os"
 	"sort"
 	"strings"
@@ -171,7 +172,17 @@ func c06One(env *Env, m *wvlib.Model, c *C06Case) {
 	if before == nil {
 		before = &wvlib.Build{}
 	}
-	vctx := &pwr.ValidatorContext{HealPath: "archive," + zp, Consumer: quietConsumer}
+	// the caller's consumer may implement any subset of the callbacks
+	cons := quietConsumer
+	switch c.Seed % 4 {
+	case 1:
+		cons = &state.Consumer{OnProgressLabel: func(string) {}}
+	case 2:
+		cons = &state.Consumer{OnMessage: func(string, string) {}}
+	case 3:
+		cons = &state.Consumer{OnProgressLabel: func(string) {}, OnMessage: func(string, string) {}, OnProgress: func(float64) {}}
+	}
+	vctx := &pwr.ValidatorContext{HealPath: "archive," + zp, Consumer: cons}
 	done := make(chan error, 1)
 	go func() {
 		defer func() {
